@@ -2,7 +2,7 @@
    over the reals about the association table the code builds
    (assoctab[i].append(seq[j]) for the pairs of each selected series' path). *)
 From Coq Require Import Reals List.
-From DV Require Import Dba.
+From DV Require Import Dba DbaDtw.
 Import ListNotations.
 Open Scope R_scope.
 
@@ -26,3 +26,23 @@ Proof. exact assoc_cost_is_sum_over_aligned_pairs. Qed.
 Theorem C12_zero_cost_fixed_point : forall c A, length c = length A -> (forall Ai, In Ai A -> Ai <> []) ->
   assoc_cost c A = 0 -> dba_step A = c.
 Proof. exact zero_cost_is_fixed_point. Qed.
+
+(* The full statement: with the new average built from the selected series' optimal paths
+   (table = all aligned pairs, step = position-wise mean) the sum over the selected series of
+   the squared DTW distances does not increase -- for every function dist that is attained by
+   the path used for the old average and is a lower bound of the cost (squared differences
+   plus pen per non-diagonal step) of that same index path for every average of the same length
+   (index paths stay admissible: admissibility depends on lengths and window only). *)
+Theorem C12_step_never_worsens_sum_of_dtw : forall pen (dist : list R -> list R -> R) c SP,
+  (forall iv, In iv (all_pairs SP) -> (fst iv < length c)%nat) ->
+  (forall a, (a < length c)%nat -> exists v, In (a, v) (all_pairs SP)) ->
+  (forall sp, In sp SP -> dist c (fst sp) = rpath_cost pen c (fst sp) (snd sp)) ->
+  (forall c' sp, In sp SP -> length c' = length c -> dist c' (fst sp) <= rpath_cost pen c' (fst sp) (snd sp)) ->
+  dist_sum dist (new_average (length c) SP) SP <= dist_sum dist c SP.
+Proof. exact dba_step_never_worsens_dtw. Qed.
+
+(* the covering premise holds for one warping path from row 0 to the last row *)
+Theorem C12_warping_path_covers_every_position : forall P t, P <> [] -> unit_steps P ->
+  fst (hd (0, 0)%nat P) = 0%nat -> fst (last P (0, 0)%nat) = (t - 1)%nat ->
+  forall a, (a < t)%nat -> exists b, In (a, b) P.
+Proof. exact path_covers_rows. Qed.
